@@ -575,6 +575,9 @@ def _len(interp, args, kwargs, node):
         except TypeError:
             pass
     if isinstance(v, ElemV):
+        ov = getattr(interp, "len_override", None)
+        if ov and v.var in ov:
+            return ov[v.var]
         return LinV(F.lin_term(("len", v.var)))
     if isinstance(v, Sym):
         return LinV(F.lin_term(("len", v.label)))
@@ -671,6 +674,8 @@ def _agg(name):
             return Const((min if name == "min" else max)(s[1].value for s in segs))
         if not segs and "default" in kwargs:
             return kwargs["default"]
+        if segs and all(s[0] == "one" for s in segs) and len({desc(s[1]) for s in segs}) == 1:
+            return segs[0][1]
         dsegs = []
         for s in segs:
             if s[0] == "one":
